@@ -39,7 +39,16 @@ type StreamSpec struct {
 	Bytes      int64 `json:"bytes"` // opener -> acceptor
 	Reply      int64 `json:"reply"` // acceptor -> opener (bidirectional only)
 	SlowReader bool  `json:"slow_reader,omitempty"`
+	// opener -> acceptor direction only: the writer abandons the stream (CancelWrite, code 41) after this
+	// many bytes / the reader abandons it (CancelRead, code 43) after at least this many bytes
+	CancelWriteAt int64 `json:"cancel_write_at,omitempty"`
+	CancelReadAt  int64 `json:"cancel_read_at,omitempty"`
 }
+
+const (
+	CancelWriteCode = 41
+	CancelReadCode  = 43
+)
 
 // TransferSpec is an application script run on an established connection pair.
 type TransferSpec struct {
@@ -65,6 +74,10 @@ type StreamOutcome struct {
 	EOF      bool   `json:"eof"`
 	Err      string `json:"err,omitempty"`
 	WriteErr string `json:"write_err,omitempty"`
+	// Done: the reader finished the way the script says (EOF at the planned size, the writer's reset after a
+	// correct prefix, or its own cancellation)
+	Done   bool  `json:"done"`
+	errVal error // the reader's error, for classification
 }
 
 // TransferResult is the outcome of RunTransfer.
@@ -94,9 +107,24 @@ func (t *transferRun) viol(sig, f string, a ...any) {
 	t.mu.Unlock()
 }
 
+var errWriterCancelled = errors.New("verif: writer cancelled as scripted")
+
 func (t *transferRun) write(s io.Writer, id int64, fromServer bool, n int64, rng *rand.Rand, maxChunk int) error {
+	return t.writeUntil(s, id, fromServer, n, 0, rng, maxChunk)
+}
+
+// writeUntil writes n bytes, or, with cancelAt > 0, cancelAt bytes followed by CancelWrite.
+func (t *transferRun) writeUntil(s io.Writer, id int64, fromServer bool, n, cancelAt int64, rng *rand.Rand, maxChunk int) error {
 	var off int64
 	buf := make([]byte, maxChunk)
+	if cancelAt > 0 {
+		n = min(n, cancelAt)
+		defer func() {
+			if cw, ok := s.(interface{ CancelWrite(quic.StreamErrorCode) }); ok {
+				cw.CancelWrite(CancelWriteCode)
+			}
+		}()
+	}
 	for off < n {
 		c := int64(1 + rng.IntN(maxChunk))
 		if rng.IntN(8) == 0 {
@@ -115,13 +143,48 @@ func (t *transferRun) write(s io.Writer, id int64, fromServer bool, n int64, rng
 			return fmt.Errorf("short write %d of %d without error", m, c)
 		}
 	}
+	if cancelAt > 0 {
+		return errWriterCancelled
+	}
 	return nil
 }
 
 func (t *transferRun) read(s io.Reader, id int64, fromServer bool, want int64, rng *rand.Rand, maxChunk int, slow bool) StreamOutcome {
-	o := StreamOutcome{ID: id, ToServer: !fromServer, Want: want}
+	return t.readUntil(s, id, fromServer, want, 0, 0, rng, maxChunk, slow)
+}
+
+// readUntil reads to EOF.  writerCancelAt > 0: the writer resets the stream after that many bytes, the
+// reader must see a correct prefix of them and then the reset.  cancelAt > 0: the reader cancels after at
+// least that many bytes.
+func (t *transferRun) readUntil(s io.Reader, id int64, fromServer bool, want, writerCancelAt, cancelAt int64, rng *rand.Rand, maxChunk int, slow bool) (o StreamOutcome) {
+	o = StreamOutcome{ID: id, ToServer: !fromServer, Want: want}
+	defer func() {
+		var se *quic.StreamError
+		switch {
+		case o.Err == "cancelled-by-reader":
+			o.Done = true
+		case writerCancelAt > 0:
+			// the reset may overtake data: any correct prefix of the bytes written, then the writer's code
+			if o.EOF {
+				t.viol("C01|stream|eof-on-reset-stream", "stream %d: the writer wrote %d bytes and reset the stream; the reader saw EOF after %d", id, writerCancelAt, o.Got)
+			} else if errors.As(o.errVal, &se) && se.Remote && se.ErrorCode == CancelWriteCode && o.Got <= writerCancelAt {
+				o.Done = true
+			} else if errors.As(o.errVal, &se) {
+				t.viol("C01|stream|wrong-reset-error", "stream %d: the writer reset the stream with code %d after %d bytes; the reader got %v after %d bytes", id, CancelWriteCode, writerCancelAt, o.errVal, o.Got)
+			}
+		default:
+			o.Done = o.EOF && o.Got == o.Want
+		}
+	}()
 	buf := make([]byte, maxChunk)
 	for {
+		if cancelAt > 0 && o.Got >= cancelAt {
+			if cr, ok := s.(interface{ CancelRead(quic.StreamErrorCode) }); ok {
+				cr.CancelRead(CancelReadCode)
+			}
+			o.Err = "cancelled-by-reader"
+			return o
+		}
 		c := 1 + rng.IntN(maxChunk)
 		if slow {
 			time.Sleep(time.Duration(1+rng.IntN(20)) * time.Millisecond)
@@ -154,6 +217,7 @@ func (t *transferRun) read(s io.Reader, id int64, fromServer bool, want int64, r
 		}
 		if err != nil {
 			o.Err = err.Error()
+			o.errVal = err
 			return o
 		}
 		if n == 0 {
@@ -238,7 +302,7 @@ func RunTransfer(ctx context.Context, client, server *quic.Conn, connIdx int, ts
 					}
 					_ = werr
 				}()
-				o := t.read(s, id, !isServer, sp.Bytes, rngFor(uint64(id)*4+2), ts.MaxChunk, sp.SlowReader)
+				o := t.readUntil(s, id, !isServer, sp.Bytes, sp.CancelWriteAt, sp.CancelReadAt, rngFor(uint64(id)*4+2), ts.MaxChunk, sp.SlowReader)
 				w2.Wait()
 				addOutcome(o)
 			}()
@@ -257,7 +321,7 @@ func RunTransfer(ctx context.Context, client, server *quic.Conn, connIdx int, ts
 					t.viol("C01|stream|unexpected-stream", "accepted unidirectional stream %d that the peer never opened", id)
 					return
 				}
-				addOutcome(t.read(s, id, !isServer, sp.Bytes, rngFor(uint64(id)*4+2), ts.MaxChunk, sp.SlowReader))
+				addOutcome(t.readUntil(s, id, !isServer, sp.Bytes, sp.CancelWriteAt, sp.CancelReadAt, rngFor(uint64(id)*4+2), ts.MaxChunk, sp.SlowReader))
 			}()
 		}
 	}
@@ -292,7 +356,7 @@ func RunTransfer(ctx context.Context, client, server *quic.Conn, connIdx int, ts
 					wg.Add(1)
 					go func() {
 						defer wg.Done()
-						if err := t.write(s, p.id, side, p.spec.Bytes, rngFor(uint64(p.id)*4+3), ts.MaxChunk); err == nil {
+						if err := t.writeUntil(s, p.id, side, p.spec.Bytes, p.spec.CancelWriteAt, rngFor(uint64(p.id)*4+3), ts.MaxChunk); err == nil {
 							s.Close()
 						}
 					}()
@@ -309,7 +373,7 @@ func RunTransfer(ctx context.Context, client, server *quic.Conn, connIdx int, ts
 				wg.Add(2)
 				go func() {
 					defer wg.Done()
-					if err := t.write(s, p.id, side, p.spec.Bytes, rngFor(uint64(p.id)*4+3), ts.MaxChunk); err == nil {
+					if err := t.writeUntil(s, p.id, side, p.spec.Bytes, p.spec.CancelWriteAt, rngFor(uint64(p.id)*4+3), ts.MaxChunk); err == nil {
 						s.Close()
 					}
 				}()
@@ -432,7 +496,7 @@ func RunTransfer(ctx context.Context, client, server *quic.Conn, connIdx int, ts
 	}
 	complete := 0
 	for _, o := range res.Outcomes {
-		if o.EOF && o.Got == o.Want {
+		if o.Done {
 			complete++
 		}
 	}
@@ -440,7 +504,7 @@ func RunTransfer(ctx context.Context, client, server *quic.Conn, connIdx int, ts
 	if !res.Completed && res.ClientCause == nil && res.ServerCause == nil {
 		var missing []string
 		for _, o := range res.Outcomes {
-			if !(o.EOF && o.Got == o.Want) {
+			if !o.Done {
 				missing = append(missing, fmt.Sprintf("stream %d toServer=%v got %d/%d eof=%v err=%q", o.ID, o.ToServer, o.Got, o.Want, o.EOF, o.Err))
 			}
 		}
